@@ -1,10 +1,117 @@
-"""Kani component (filled in later)."""
+"""Kani component: harnesses compiled INTO the real crates through cfg(kani) hooks (DESIGN.md 2.6).
+
+complete harnesses (loop-free / fixed-width, full input domain) count as discharged obligations;
+bounded harnesses are reported under coverage.bounded_checks and never counted as proved.
+"""
+import concurrent.futures as cf
+import os
+import re
+import subprocess
+import time
+
+VERIF = os.path.dirname(os.path.dirname(os.path.abspath(__file__)))
+REPO = os.environ.get("VERIF_REPO", "/repo")
+TARGET = os.path.join(VERIF, "build", "kani", "target")
+
+
+def _run(h, extra=None, timeout=None):
+    cmd = ["cargo", "kani", "-p", h["crate"], "--target-dir", TARGET + "_" + h["crate"].replace("-", "_"), "--harness", h["harness"]]
+    if h.get("features"):
+        cmd += ["--features", h["features"]]
+    if h.get("zflags"):
+        for z in h["zflags"]:
+            cmd += ["-Z", z]
+    if extra:
+        cmd += extra
+    env = dict(os.environ)
+    env["CARGO_NET_OFFLINE"] = "true"
+    env["ACTIX_VERIF_DIR"] = VERIF
+    t0 = time.time()
+    try:
+        p = subprocess.run(cmd, cwd=REPO, env=env, stdout=subprocess.PIPE, stderr=subprocess.STDOUT, text=True,
+                           timeout=timeout or h.get("timeout", 600))
+        out = p.stdout
+        rc = p.returncode
+    except subprocess.TimeoutExpired as e:
+        out = (e.stdout or "") if isinstance(e.stdout, str) else ""
+        rc = -9
+    return " ".join(cmd), rc, out, time.time() - t0
+
+
+def _one(h):
+    cmd, rc, out, wall = _run(h)
+    res = {"name": h["harness"], "crate": h["crate"], "complete": h["kind"] == "complete", "kind": h["kind"], "bound": h.get("bound", ""),
+           "what": h.get("what", ""), "cmd": cmd, "wall_s": round(wall, 1), "status": "undecided", "reason": "", "output_tail": out[-3000:]}
+    if rc == -9:
+        res["reason"] = "timeout after %ds" % h.get("timeout", 600)
+    elif "VERIFICATION:- SUCCESSFUL" in out:
+        res["status"] = "ok"
+        m = re.search(r"\*\* 0 of (\d+) failed", out)
+        res["checks"] = int(m.group(1)) if m else 0
+        if h["kind"] == "bounded" and "unwinding assertion" in out and re.search(r"unwinding assertion[^\n]*\n[^\n]*FAILURE", out):
+            res["status"] = "undecided"
+            res["reason"] = "unwinding assertion failed: bound too small"
+    elif "VERIFICATION:- FAILED" in out:
+        fails = re.findall(r"Status: FAILURE\s*\n\s*- Description: \"([^\"]*)\"", out)
+        unwind = [f for f in fails if "unwinding assertion" in f]
+        if unwind and len(unwind) == len(fails):
+            res["status"] = "undecided"
+            res["reason"] = "only unwinding assertions failed: bound too small"
+        else:
+            res["status"] = "failed"
+            res["reason"] = "; ".join(f for f in fails if "unwinding" not in f)[:500]
+            # counterexample: concrete playback prints a unit test with the concrete values
+            _, _, out2, _ = _run(h, extra=["-Z", "concrete-playback", "--concrete-playback=print"], timeout=h.get("timeout", 600))
+            m = re.search(r"```\n(.*?)```", out2, re.S)
+            if m:
+                res["cex"] = {"concrete_playback_test": m.group(1)[:4000],
+                              "note": "values Kani found; `cargo kani playback` or the harness itself runs them against the real function (the harness is compiled into the real crate)"}
+    else:
+        errs = [l for l in out.split("\n") if l.startswith("error")]
+        res["reason"] = "kani/cargo did not produce a verdict (rc=%s): %s" % (rc, "; ".join(errs[:3])[:400])
+    return res
 
 
 def run_property(pid, P, tier):
-    return {"cmds": [], "trusted": [], "samples": [], "bounded": [], "functions": [], "harnesses": []}
+    hs = [h for h in P.get("kani", []) if tier == "thorough" or h.get("quick", True)]
+    results = []
+    # group by crate so that each crate is compiled once; harnesses of a crate run sequentially, crates in parallel
+    by_crate = {}
+    for h in hs:
+        by_crate.setdefault(h["crate"] + "|" + (h.get("features") or ""), []).append(h)
+
+    def run_group(g):
+        return [_one(h) for h in g]
+    with cf.ThreadPoolExecutor(max_workers=4) as ex:
+        for grp in ex.map(run_group, by_crate.values()):
+            results += grp
+    out = {"cmds": [r["cmd"] for r in results], "trusted": ["Kani 0.68 / CBMC 6.11 (bit-precise; unwinding assertions on)"] if results else [],
+           "samples": [], "bounded": [], "functions": [], "harnesses": results}
+    for r in results:
+        if r["status"] == "ok":
+            ent = {"harness": r["name"], "crate": r["crate"], "what": r["what"], "checks": r.get("checks", 0), "wall_s": r["wall_s"]}
+            if r["complete"]:
+                out["samples"].append({"obligation": "kani::" + r["name"], "kind": "kani complete harness", "clause": r["what"]})
+                out["functions"].append({"name": r["what"].split(":")[0], "file": r["crate"], "lines": [0, 0], "backend": "kani/cbmc", "smt_ms": int(r["wall_s"] * 1000), "success": True, "unit": "kani:" + r["name"]})
+            else:
+                out["bounded"].append(dict(ent, bound=r["bound"], result="held within the bound (NOT counted as proved)"))
+    return out
 
 
 def replay(pid, body):
-    print("UNDECIDED kani replay not available")
+    import props
+    P = props.PROPS[pid]
+    for h in P.get("kani", []):
+        if h["harness"] == body.get("harness"):
+            r = _one(h)
+            if r["status"] == "failed":
+                print("REPLAY: harness %s still fails on the current tree: %s" % (h["harness"], r["reason"]))
+                print("VIOLATION property=%s replay=%s" % (pid, body.get("_path", "?")))
+                return 1
+            if r["status"] == "ok":
+                print("REPLAY: harness %s passes on the current tree" % h["harness"])
+                return 0
+            print("UNDECIDED %s" % r["reason"])
+            return 2
+    print("UNDECIDED harness not found")
     return 2
